@@ -71,7 +71,7 @@ func elasticPipelinedScenarios(tier string) []clustermc.Scenario {
 		{"2n-2+1gpu", []world.NodeOpt{{Name: "n1", CPU: "4", Mem: "8Gi", GPUs: 2, GPUMemMiB: 40000}, {Name: "n2", CPU: "4", Mem: "8Gi", GPUs: 1, GPUMemMiB: 40000}}},
 		{"2n-3+1gpu", []world.NodeOpt{{Name: "n1", CPU: "4", Mem: "8Gi", GPUs: 3, GPUMemMiB: 40000}, {Name: "n2", CPU: "4", Mem: "8Gi", GPUs: 1, GPUMemMiB: 40000}}},
 	}
-	cfgs := []schedrun.Config{{}, {Placement: "spread", NoConsolidation: true, ConsolidatingReclaim: true}}
+	cfgs := []schedrun.Config{{}, {Placement: "spread", NoConsolidation: true, ConsolidatingReclaim: true}, {GpuSpread: true}}
 	kMax := 3
 	if tier == "thorough" {
 		kMax = 4
